@@ -149,8 +149,8 @@ structure Look where
   /-- a breakOutput or cancel event is still to come -/
   fault : Bool
   /-- the `src` of the handler entries / exits still to come -/
-  enters : List Nat
-  exits : List Nat
+  enters : Std.HashSet Nat
+  exits : Std.HashSet Nat
   fin : String
 
 def isErrOut : OutMsg → Bool
@@ -185,10 +185,46 @@ def viable (lk : Look) (s : State) : Bool :=
     x.kind != .step ||
       ((!lk.enters.contains x.src || x.pc == .spawned) &&
        (!lk.exits.contains x.src || x.pc == .spawned || x.pc == .entered))
-  pre && lenOk && brokenOk && pend && stepsOk
+  -- every goroutine (and the read loop) that has a report to make will make it: without a fault
+  -- there are at least as many error messages still to be observed
+  let owed := (s.gs.filter fun x => x.pc == .failing).length +
+    (match s.loop with | .sending _ _ => 1 | _ => 0) + (pendingErrs s).length
+  let owedOk := lk.fin != "returned" || s.stopped || s.outBroken || s.h == .done || lk.fault || s.cancelled
+    || owed ≤ rest.length
+  pre && lenOk && brokenOk && pend && stepsOk && owedOk
+
+/-- the internal actions that can be enabled in `s` (the same successors as `internalActs`, without
+    trying the actions of goroutines that wait for the plugin or have finished) -/
+def enabledActs (s : State) : List Act :=
+  [.loopRead, .loopReadErr, .loopSend, .loopEnd, .hRecv, .hEmit, .hCancel, .close] ++
+  (s.gs.zipIdx.flatMap fun (x, g) =>
+    match x.pc, x.kind with
+    | .spawned, .step => [Act.gStart g .reject]
+    | .spawned, .signal => [.sigRun g .ok, .sigRun g .err, .sigRun g .unknown, .sigRun g .panic]
+    | .writing, _ => [.gWrite g]
+    | .failing, _ => [.gSend g]
+    | _, _ => [])
 
 def internalSucc (c : Cfg) (s : State) : List State :=
-  (internalActs s).filterMap (step? c s)
+  (enabledActs s).filterMap (step? c s)
+
+/-- A signal goroutine's only own action (`sigRun`) touches nothing but its own control state and
+    the WaitGroup counter, commutes with every other action and disables none; in a history that
+    ends with the server's return it has to happen. So its outcome can be decided the moment the
+    goroutine is spawned: the undecided state is replaced by its successors (otherwise n signals
+    in flight give 2^n states that differ only in which of them have already run). -/
+partial def settleSignals (c : Cfg) (s : State) : List State :=
+  match (List.range s.gs.length).find? (fun g =>
+      match s.gs[g]? with
+      | some x => x.kind == .signal && x.pc == .spawned
+      | none => false) with
+  | none => [s]
+  | some g =>
+    ([SigRes.ok, .err, .unknown, .panic].filterMap fun r => step? c s (.sigRun g r)).eraseDups.flatMap
+      (settleSignals c)
+
+def settle (c : Cfg) (lk : Look) (s : State) : List State :=
+  if lk.fin == "returned" && !s.crashed then settleSignals c s else [s]
 
 def atpStateBound : Nat := 300000
 
@@ -199,13 +235,13 @@ partial def tauClosure (c : Cfg) (lk : Look) (work : List State) (seen : Std.Has
   | [] => some seen
   | s :: rest =>
     if seen.size > atpStateBound then none else
-    let (work', seen') := (internalSucc c s).foldl (fun (acc : List State × Std.HashSet State) t0 =>
+    let (work', seen') := ((internalSucc c s).flatMap (settle c lk)).foldl (fun (acc : List State × Std.HashSet State) t0 =>
       let t := canon t0
       if !viable lk t || acc.2.contains t then acc else (t :: acc.1, acc.2.insert t)) (rest, seen)
     tauClosure c lk work' seen'
 
 def closeSet (c : Cfg) (lk : Look) (ss : List State) : Option (Std.HashSet State) :=
-  let init := ss.foldl (fun (h : Std.HashSet State) s0 =>
+  let init := (ss.flatMap (settle c lk)).foldl (fun (h : Std.HashSet State) s0 =>
     let s := canon s0
     if viable lk s then h.insert s else h) {}
   tauClosure c lk init.toList init
@@ -219,8 +255,8 @@ def lookOf (fin : String) (evs : List AtpEv) : Look :=
       | .act .breakOutput => true
       | .act .cancel => true
       | _ => false,
-    enters := evs.filterMap fun e => match e with | .enter k => some k | _ => none,
-    exits := evs.filterMap fun e => match e with | .exit k _ => some k | _ => none,
+    enters := evs.foldl (fun (h : Std.HashSet Nat) e => match e with | .enter k => h.insert k | _ => h) {},
+    exits := evs.foldl (fun (h : Std.HashSet Nat) e => match e with | .exit k _ => h.insert k | _ => h) {},
     fin := fin }
 
 def handleAtpServerTrace (j : Json) : AR Json := do
@@ -249,7 +285,7 @@ def handleAtpServerTrace (j : Json) : AR Json := do
     | "hang" => cur.toList.any (quiescent c)
     | "crash" => cur.toList.any fun s => s.crashed
     | _ => false
-  if okEnd then return Json.mkObj [("r", "ok")]
+  if okEnd then return (if dbg then Json.mkObj [("r", "ok"), ("sizes", Json.arr sizes)] else Json.mkObj [("r", "ok")])
   else return Json.mkObj [("r", "not-a-trace"), ("at", Json.num (JsonNumber.fromNat i)), ("end", Json.str fin)]
 
 end Arca.Dispatch.AtpServerTrace
